@@ -67,12 +67,16 @@ def m_or_insert_with(ex, st, a, dst, callee):
     if fn is None:
         return None
     st.env["$entry_closure"] = a[1]
-    res = subcall(ex, st, fn, [st.env["$entry_closure"]] if fn.args and not fn.types.get(fn.args[0], "").startswith("&") else [Ref("$entry_closure")])
+    by_ref = bool(fn.args) and fn.types.get(fn.args[0], "").startswith("&")
+    res = subcall(ex, st, fn, [Ref("$entry_closure") if by_ref else a[1]], with_state=True)
     if isinstance(res, str):
         return res
     if len(res) != 1:
         raise Unsupported("or_insert_with closure forks")
-    return [(_insert_new(ex, st, e, res[0][0]), res[0][1], None)]
+    val, extra, post = res[0]
+    # the closure may mutate what it captured (e.g. push to another container): adopt its post-state
+    st.env = post.env
+    return [(_insert_new(ex, st, e, val), extra, None)]
 
 
 def m_or_insert(ex, st, a, dst, callee):
